@@ -23,7 +23,7 @@ Print Assumptions C12_roundtrip.
 (* hence any evaluation of the re-parsed expression equals the evaluation of the original *)
 Theorem C12_same_evaluation : forall (A : Type) (eval : expr -> A) u e, wf_expr e -> lexable e = true ->
   option_map eval (parse_text u (print_src e)) = Some (eval e).
-Proof. intros A eval u e Hw Hl. rewrite (parse_text_print u e Hw Hl). reflexivity. Qed.
+Proof. exact same_evaluation. Qed.
 Print Assumptions C12_same_evaluation.
 
 (* the three steps the round trip is composed of *)
@@ -60,7 +60,7 @@ Print Assumptions C12_expressible_fixed_names.
    printed text 'a\'~x,'b'~y does not parse (known finding trailing-backslash) *)
 Theorem C12_trailing_backslash_refuted : exists s e,
   parse_text ascii_only s = Some e /\ wf_expr e /\ lexable e = false /\ parse_text ascii_only (print_src e) = None.
-Proof. exists tb_text, tb_expr. exact trailing_backslash_witness. Qed.
+Proof. exact trailing_backslash_exists. Qed.
 Print Assumptions C12_trailing_backslash_refuted.
 
 (* non-vacuity and a computed instance:  +mp:^packages*.'it''s'~classes,(..a,parent(X))*.b  *)
